@@ -20,7 +20,7 @@ def calls_of(name):
 
 
 # ---- summaries (sound abstractions used at call sites; each function has its own verified contract elsewhere) -----------------------------
-@contract(GEN + 'parse_options_to_ExportOptions', props=['C20'], name='parse_options_summary',
+@contract(GEN + 'parse_options_to_ExportOptions', props=['C20'], name='parse_options_summary', local=True,
           assumed='abstraction of parse_options_to_ExportOptions (verified by contract parse_options, C05): an options object determined by the keyword arguments')
 class parse_options_summary:
     def model(kwargs):
@@ -29,7 +29,7 @@ class parse_options_summary:
         return o
 
 
-@contract(GEN + 'export', props=['C20'], name='generic_export_summary',
+@contract(GEN + 'export', props=['C20'], name='generic_export_summary', local=True,
           assumed='abstraction of Generic.export: a string determined by (document, options); the export itself is the subject of C03-C07')
 class generic_export_summary:
     def model(document, options):
@@ -38,7 +38,7 @@ class generic_export_summary:
         return r
 
 
-@contract('kernpy.core._io._write', props=['C20'], name='write_summary',
+@contract('kernpy.core._io._write', props=['C20'], name='write_summary', local=True,
           assumed='abstraction of _write (verified by contract io_write): stores content at path')
 class write_summary:
     def model(path, content):
@@ -49,6 +49,7 @@ class write_summary:
 @contract(GEN + 'store', props=['C20'])
 class generic_store:
     """store(document, path, options) writes, at `path`, exactly the string export(document, options) returns"""
+    uses = ('generic_export_summary', 'write_summary')
     def inputs(g):
         return {'cls': Generic, 'document': opaque('document'), 'path': opaque('path'), 'options': opaque('options')}
 
@@ -71,6 +72,8 @@ def mapping_ok(call, vals):
 
 @contract(PUB + 'dumps', props=['C20', 'C13'])
 class public_dumps:
+    uses = ('parse_options_summary', 'generic_export_summary')
+
     def inputs(g):
         d = option_inputs(g)
         d['document'] = opaque('document')
@@ -88,6 +91,7 @@ class public_dumps:
 @contract(PUB + 'dump', props=['C20'])
 class public_dump:
     """dump builds the options exactly as dumps does and stores export(document, options) at fp"""
+    uses = ('parse_options_summary', 'generic_export_summary', 'write_summary')
     def inputs(g):
         d = option_inputs(g)
         d['document'] = opaque('document')
